@@ -29,6 +29,21 @@ type c05Tpl struct {
 	lists [][]types.Value
 	// subst computes the concrete request for a choice of values (independent of cloneSub)
 	subst func(vals map[types.String]types.Value) types.Request
+	// sparse: use the small policy set in which, for some values, no permit survives
+	// partial evaluation while a forbid still applies
+	sparse bool
+}
+
+// c05PoliciesFor: the policy family for a template.
+func c05PoliciesFor(t c05Tpl) *cedar.PolicySet {
+	if !t.sparse {
+		return c05Policies()
+	}
+	ps := cedar.NewPolicySet()
+	ps.Add("permit-e", cedar.NewPolicyFromAST(ast.Permit().PrincipalEq(c05E)))
+	ps.Add("forbid-x", cedar.NewPolicyFromAST(ast.Forbid().ResourceEq(c05X)))
+	ps.Add("forbid-p-when", cedar.NewPolicyFromAST(ast.Forbid().ResourceEq(c05P).When(ast.Context().Access("a").Equal(ast.Long(1)))))
+	return ps
 }
 
 func c05Entities() types.EntityMap {
@@ -60,7 +75,7 @@ func c05MaxList() int {
 
 // c05Template returns one request template of the family (selector = program shape).
 func c05Template() c05Tpl {
-	shape := vrt.Choice("shape", 12)
+	shape := vrt.Choice("shape", 14)
 	n1 := 1 + vrt.Choice("len1", c05MaxList())
 	vrt.Bound("value-list-length", c05MaxList())
 	get := func(vals map[types.String]types.Value, k types.String) types.Value { return vals[k] }
@@ -142,6 +157,21 @@ func c05Template() c05Tpl {
 		t.subst = func(v map[types.String]types.Value) types.Request {
 			return types.Request{Principal: c05E, Action: get(v, "act").(types.EntityUID), Resource: get(v, "r").(types.EntityUID), Context: types.NewRecord(types.RecordMap{"a": types.Long(1), "who": get(v, "act")})}
 		}
+	case 12: // forbid-only residuals: two variables, permits pruned by the first one
+		n2 := 1 + vrt.Choice("len2", c05MaxList())
+		t.sparse = true
+		t.vars, t.lists = []types.String{"p", "r"}, [][]types.Value{[]types.Value{c05X, c05E, c05P}[:n1], []types.Value{c05X, c05P, c05E}[:n2]}
+		t.req = Request{Principal: Variable("p"), Action: c05A, Resource: Variable("r"), Context: baseCtx}
+		t.subst = func(v map[types.String]types.Value) types.Request {
+			return types.Request{Principal: get(v, "p").(types.EntityUID), Action: c05A, Resource: get(v, "r").(types.EntityUID), Context: baseCtx}
+		}
+	case 13: // forbid-only policy set seen through one variable with several values
+		t.sparse = true
+		t.vars, t.lists = []types.String{"r"}, [][]types.Value{[]types.Value{c05X, c05P, c05E}[:n1]}
+		t.req = Request{Principal: c05X, Action: c05A, Resource: Variable("r"), Context: baseCtx}
+		t.subst = func(v map[types.String]types.Value) types.Request {
+			return types.Request{Principal: c05X, Action: c05A, Resource: get(v, "r").(types.EntityUID), Context: baseCtx}
+		}
 	}
 	t.req.Variables = Variables{}
 	for i, k := range t.vars {
@@ -190,7 +220,7 @@ func c05SameSet(a, b map[types.PolicyID]bool) bool {
 
 func VerifC05_Equivalence() {
 	t := c05Template()
-	ps := c05Policies()
+	ps := c05PoliciesFor(t)
 	ents := c05Entities()
 	var seen []Result
 	err := Authorize(context.Background(), ps, ents, t.req, func(r Result) error {
@@ -264,7 +294,7 @@ var errC05Callback = errors.New("callback failed")
 
 func VerifC05_CallbackFailure() {
 	t := c05Template()
-	ps := c05Policies()
+	ps := c05PoliciesFor(t)
 	product := 1
 	for _, l := range t.lists {
 		product *= len(l)
@@ -301,7 +331,7 @@ func (c *c05Ctx) Err() error {
 
 func VerifC05_ContextCancel() {
 	t := c05Template()
-	ps := c05Policies()
+	ps := c05PoliciesFor(t)
 	ctx := &c05Ctx{okCalls: vrt.Choice("cancel-after", 6)}
 	cancelledAt := -1
 	calls := 0
